@@ -36,7 +36,8 @@ type RootSpec struct {
 	PreemptBound int               `json:"preemption_bound"`  // max preemptive context switches per path (default 2)
 	NativeStress []int             `json:"native_stress"`     // [argIndex, value]: when a finding of this root is replayed natively, that argument (a repetition count) is raised so that the native scheduler gets many chances to take the interleaving
 	PreemptAt    []string          `json:"preempt_at"`        // restrict lock preemption points to Lock calls made from functions matching one of these substrings
-	PreemptLock  bool              `json:"preempt_at_lock"`   // every mutex acquisition is a preemption point
+	PreemptLock  bool              `json:"preempt_at_lock"`
+	PreemptSelect bool              `json:"preempt_at_select"`   // every mutex acquisition is a preemption point
 	TimersWait   bool              `json:"timers_may_wait"`   // a select whose only ready cases are timers also explores "the timer fires later, after the other runnable goroutines"
 	TickerFires  int               `json:"ticker_fires"`      // time.NewTicker fires up to k times (default 0: never)
 	TimersOff    bool              `json:"timers_never_fire"` // time.NewTimer never fires in this root (default: may fire at any moment)
@@ -473,6 +474,7 @@ func newMachine(l *Loaded, spec *RootSpec, solverBin string) *Machine {
 	m.timersWait = spec.TimersWait
 	m.tickerFires = spec.TickerFires
 	m.preemptLock = spec.PreemptLock
+	m.preemptSelect = spec.PreemptSelect
 	m.preemptBound = spec.PreemptBound
 	m.preemptAt = spec.PreemptAt
 	if m.preemptBound == 0 {
@@ -750,6 +752,7 @@ func cmdRun(a []string) int {
 				}
 				spec.Replace = r.Replace
 				spec.PreemptLock = r.PreemptLock
+				spec.PreemptSelect = r.PreemptSelect
 				spec.TimersOff = r.TimersOff
 				spec.TimersWait = r.TimersWait
 				spec.TickerFires = r.TickerFires
